@@ -135,6 +135,8 @@ def run(job, ctx):
                 forms.append(('grouped+decimal', group(str(ip), th) + dec + fp, v))
                 forms.append(('negative grouped+decimal', '-' + group(str(ip), th) + dec + fp, -v))
         forms.append(('negative', '-' + str(ip), Decimal(-ip)))
+        if ip >= 1000:
+            forms.append(('negative grouped', '-' + group(str(ip), th), Decimal(-ip)))
         for form, s, val in forms:
             cars = ['{}'] + ([CARRIER[cu]] if cu in CARRIER else [])
             for car in cars:
